@@ -939,7 +939,7 @@ func corruptions(b baseEnc, fullSubstUpTo int, pairUpTo int, emit func(kind stri
 func main() {
 	vlib.Main("C08", "model_checking", func(c *vlib.Ctx) {
 		c.Rule("exhaustive enumeration of (a) records: metadata tuples over a boundary value set^4 x both flags x payload set x format set (all 256 formats on a smaller meta set) as wrapped raw data, and x a typed-value set of the harness schema as typed records, each serialised with the real MarshalRecord, parsed with the real NewRawWrapper, unwrapped (typed) and serialised a second time; " +
-			"(b) byte strings: all strings of length <= 3; 01 | len | every meta-format byte | every body of length <= 2 (<= 3 in thorough for the 9 dsd format bytes and '{') with and without a data section; 01 | every boundary block length | 0..3 bytes; and for N valid encodings (wrappers, typed records, meta sections in JSON/CBOR/MsgPack/YAML/gzip) every truncation, every single-byte substitution (all 256 values in the header, {00,7f,80,ff} elsewhere), every varint field replaced by {0, v-1, v+1, 127, 128, 2^31, 2^62, 2^63, 2^64-1, non-minimal, >64 bit, unterminated}, single-byte insertions/deletions and pairs of header substitutions; every byte string is parsed twice (cap==len, and followed by a plausible continuation in the same allocation). " +
+			"(b) byte strings: all strings of length <= 3; 01 | len | every meta-format byte | every body of length <= 2 with and without a data section (thorough: also every body of length 3 followed by a data section, for the 9 dsd format bytes and '{'); 01 | every boundary block length | 0..3 bytes; and for N valid encodings (wrappers, typed records, meta sections in JSON/CBOR/MsgPack/YAML/gzip) every truncation, every single-byte substitution (all 256 values in the header, {00,7f,80,ff} elsewhere), every varint field replaced by {0, v-1, v+1, 127, 128, 2^31, 2^62, 2^63, 2^64-1, non-minimal, >64 bit, unterminated}, single-byte insertions/deletions and pairs of header substitutions; every byte string is parsed twice (cap==len, and followed by a plausible continuation in the same allocation). " +
 			"states = distinct records + distinct byte strings (corruptions de-duplicated by hash); non-trivial = records, and byte strings for which a textbook decoder reaches the meta section (version 1 and a block covered by the input)")
 		c.Assume("the key is not part of the stored form: NewRawWrapper receives database name and key from the caller (as storage backends do); 'same key' is checked on Key() of the result")
 		c.Assume("for deleted records (Deleted > 0) the stored form carries no format byte and the parser reports RAW; the data format of a deleted record is therefore not compared, only that it has no data")
@@ -1057,7 +1057,7 @@ func main() {
 				}
 			}
 		})
-		c.Sample(witness{Kind: "wrapper", Key: "db:a:b", Meta: &metas[len(metas)/3], Format: 128, Payload: "01", Note: "stored form (reference layout) " + hx(refMarshal(metas[len(metas)/3], 128, []byte{1}))})
+		c.Sample(witness{Kind: "wrapper", Key: "db:a:b", Meta: &fewMetas()[2], Format: 128, Payload: "01", Note: "stored form (reference layout) " + hx(refMarshal(fewMetas()[2], 128, []byte{1}))})
 		c.Sample(witness{Kind: "typed", Key: "db:k", Meta: &fewMetas()[1], Typed: &tvs[len(tvs)-1]})
 		c.Sample(witness{Kind: "wrapper", Key: "db:k", Meta: &fewMetas()[3], Format: dsd.JSON, Payload: hx([]byte(`{"a":1}`)), Note: "deleted: stored form " + hx(refMarshal(fewMetas()[3], dsd.JSON, nil))})
 
@@ -1110,7 +1110,10 @@ func main() {
 				if f >= 128 {
 					blk = append([]byte{byte(f), 0x01}, body...)
 				}
-				for _, t := range tails {
+				for ti, t := range tails {
+					if len(body) == 3 && ti == 0 {
+						continue // 3-byte bodies only with a data section behind them
+					}
 					in := append(append([]byte{1, byte(len(blk))}, blk...), t...)
 					st.outcomes[checkBytes(c, st, "short-meta", in, canon[min(len(in), len(canon)):])]++
 				}
